@@ -62,6 +62,7 @@ func runC07(c *Ctx) {
 		c.oneOrdinal(r, an, podWrite{d, "delete", name}, "C07.2-delete-then-return")
 	}
 	c.Floor("C07.1-update-delete-sites", nC, 1)
+	c.walkCoversPartition(r, "C07.2-walk-reaches-down-to-partition")
 	c.updateWalkContinue(r, an, "C07.2-walk-continue")
 	c.storeClassesAs(r, "C07.1-ordinal-is-index")
 	c.versionedConstructor(r)
@@ -169,4 +170,33 @@ func enclosingBlock(body *ast.BlockStmt, n ast.Node) *ast.BlockStmt {
 		return true
 	})
 	return best
+}
+
+// walkCoversPartition: the update walk's lower bound is not above the
+// partition (or 0 when there is none): every ordinal at or above the partition
+// is visited, otherwise pods there are never brought to the update revision.
+func (c *Ctx) walkCoversPartition(r *Reconcile, rule string) {
+	if r.ULoop == nil || r.ULoop.Cond == nil {
+		return
+	}
+	be, ok := ast.Unparen(r.ULoop.Cond).(*ast.BinaryExpr)
+	if !ok {
+		c.Bad(rule, r.FI.Obj.Name()+": update walk condition", r.ULoop.Pos(), "the walk has no comparison condition")
+		return
+	}
+	idx := r.ULoop.Init.(*ast.AssignStmt).Lhs[0]
+	var lower ast.Expr
+	switch {
+	case be.Op.String() == ">=" && r.Fn.Term(be.X).Key() == r.Fn.Term(idx).Key():
+		lower = be.Y
+	case be.Op.String() == "<=" && r.Fn.Term(be.Y).Key() == r.Fn.Term(idx).Key():
+		lower = be.X
+	}
+	if lower == nil {
+		c.Bad(rule, r.FI.Obj.Name()+": update walk condition", r.ULoop.Pos(), "the walk does not run `index >= lower bound`")
+		return
+	}
+	st := r.An.StateBefore(r.ULoop.Init)
+	want := c.Want(r.Fn, r.ULoop.Pos(), "$2 <= 0 || ($1.Spec.UpdateStrategy.RollingUpdate != nil && $1.Spec.UpdateStrategy.RollingUpdate.Partition != nil && $2 <= int(*$1.Spec.UpdateStrategy.RollingUpdate.Partition))", r.Set, lower)
+	c.Implies(st, want, rule, r.FI.Obj.Name()+": update walk lower bound "+types.ExprString(lower), r.ULoop.Pos())
 }
